@@ -120,6 +120,13 @@ func init() {
 		mirrorOps[op] = "gen." + op
 		execs["gen."+op] = func(a []string) string { return execs[op](a) }
 	}
+	// secp256k1 (stage 10): the ops of the C17 stream are also answered by the generated Add / Double / ScalarMult /
+	// ScalarBaseMult / IsOnCurve
+	for _, op := range []string{"secp.add", "secp.double", "secp.mul", "secp.basemul", "secp.oncurve"} {
+		op := op
+		mirrorOps[op] = "gen." + op
+		execs["gen."+op] = func(a []string) string { return execs[op](a) }
+	}
 	execs["gen.bech32.dec"] = func(a []string) string { return execs["bech32.dec"](a) }
 	execs["gen.bech32.enc"] = func(a []string) string { return execs["bech32.enc"](a) }
 	b6 := map[error]string{b1t6.ErrInvalidTrits: "ErrInvalidTrits", b1t6.ErrInvalidLength: "ErrInvalidLength"}
